@@ -42,6 +42,8 @@ ASSUME = [
     "FNode identity = structural equality (hash-consing, C04) - the DAG printer's memo is keyed by term equality in the model",
     "annotations are not modelled (printers are created without annotations by to_smtlib/serialize)",
     "array index sorts are first-order in Sem.v",
+    "tree and DAG soundness theorems: every operator except Pow; string constants printable ASCII without backslash; array values assigned at pairwise distinct Bool/Int/BV/String constants; the arguments of Iff / extract / rotate / extend lie in C01's fragment okt (proofs/SimplifierSemBase_proofs.v: okt_sound gives the sort of their value)",
+    "script_wellformed: no general theorem yet (needs the static-sorting half); std_script_ok is evaluated inside Coq on every correspondence case and compared with the independent reader's verdict",
 ]
 
 THEORY_NAMES = set(smtread.THEORY) | {"true", "false"}
